@@ -271,14 +271,32 @@ func c11Session(c *fw.Ctx, ws bool) {
 	c.Cell("session/%s", mode)
 }
 
+// c11File: 1–3 recordings written one after the other to the SAME path (lal names recordings
+// <stream>-<unix second>.flv, so a publisher that reconnects within the second re-opens the file):
+// after each, the file must be exactly that recording - also when it is shorter than its predecessor.
 func c11File(c *fw.Ctx) {
-	r := c.Rng
 	path := filepath.Join(c.Scratch, fmt.Sprintf("rec-%d.flv", c.Index))
 	defer os.Remove(path)
+	passes := 1 + c.Index%3
+	prev := 0
+	for p := 0; p < passes; p++ {
+		n := 20 + c.Rng.Intn(200)
+		if p > 0 && c.Rng.Intn(3) != 0 {
+			n = 1 + c.Rng.Intn(prev) // shorter than the recording it replaces
+		}
+		if !c11FileOnce(c, path, n, p) {
+			return
+		}
+		prev = n
+	}
+}
+
+func c11FileOnce(c *fw.Ctx, path string, n int, pass int) bool {
+	r := c.Rng
 	var w httpflv.FlvFileWriter
 	if err := w.Open(path); err != nil {
 		c.Inconclusive("open: %v", err)
-		return
+		return false
 	}
 	w.WriteFlvHeader()
 	type wt struct {
@@ -287,7 +305,6 @@ func c11File(c *fw.Ctx) {
 		data []byte
 	}
 	var want []wt
-	n := 20 + r.Intn(200)
 	for i := 0; i < n; i++ {
 		typ := []uint8{8, 9, 18}[r.Intn(3)]
 		ts := c11Ts[r.Intn(len(c11Ts))]
@@ -322,38 +339,44 @@ func c11File(c *fw.Ctx) {
 	tags, err := ref.ParseFlvAll(b)
 	c.Eval(len(tags))
 	if err != nil {
-		c.Violate("file/ref-parse", err.Error(), nil)
-		return
+		c.Violate("file/ref-parse", fmt.Sprintf("recording %d written to the same path (%d tags): %v", pass+1, n, err), nil)
+		return false
 	}
 	if len(tags) != len(want) {
-		c.Violate("file/count", fmt.Sprintf("%d tags in file, %d written", len(tags), len(want)), nil)
-		return
+		c.Violate("file/count", fmt.Sprintf("recording %d written to the same path: %d tags in file, %d written", pass+1, len(tags), len(want)), nil)
+		return false
 	}
 	for i := range want {
 		if d := c11TagEq(tags[i], want[i].typ, want[i].ts, want[i].data); d != "" {
 			c.Violate("file/tag", fmt.Sprintf("tag %d: %s", i, d), nil)
-			return
+			return false
 		}
 	}
 	// lal's reader
 	var rd httpflv.FlvFileReader
 	if err := rd.Open(path); err != nil {
 		c.Violate("file/lal-open", err.Error(), nil)
-		return
+		return false
 	}
 	defer rd.Dispose()
 	for i := range want {
 		t, err := rd.ReadTag()
 		if err != nil || t.Header.Type != want[i].typ || t.Header.Timestamp != want[i].ts || !bytes.Equal(t.Payload(), want[i].data) {
 			c.Violate("file/lal-read", fmt.Sprintf("FlvFileReader tag %d: err=%v header=%+v", i, err, t.Header), nil)
-			return
+			return false
 		}
 	}
 	if _, err := rd.ReadTag(); err != io.EOF {
-		c.Violate("file/lal-eof", fmt.Sprintf("FlvFileReader after last tag: %v", err), nil)
+		c.Violate("file/lal-eof", fmt.Sprintf("FlvFileReader after last tag of recording %d on the same path: %v", pass+1, err), nil)
+		return false
 	}
-	c.Cell("file/roundtrip")
+	if pass == 0 {
+		c.Cell("file/roundtrip")
+	} else {
+		c.Cell("file/roundtrip/path-reused")
+	}
 	_ = bufio.NewReader
+	return true
 }
 
 func c11Sizes(tier string) (nPack, nFile, nSess int) {
@@ -371,7 +394,7 @@ func init() {
 			return a + b + s + 1
 		},
 		CaseTimeout: func(string) time.Duration { return 5 * time.Minute },
-		Rule: "PackHttpflvTag / RtmpMsg2FlvTag / FlvTag2RtmpMsg / ModTagTimestamp / ReadTag for tag types 8,9,18 × lengths (all 0..4200, strided to 70000, boundaries to 2^24−1) × timestamps across the 24-bit boundary and up to 2^32−1, parsed by a strict FLV parser; FlvFileWriter→file→strict parser and FlvFileReader; MakeWsFrameHeader for every length 0..70000 and 2^16±1, 2^31, 2^32, 2^63−1 × flag combinations parsed by an RFC 6455 parser; real httpflv.SubSession (plain and WebSocket) over loopback TCP with tag sizes around 125/126/127 and 65535/65536. cell = API × length class × timestamp class.",
+		Rule: "PackHttpflvTag / RtmpMsg2FlvTag / FlvTag2RtmpMsg / ModTagTimestamp / ReadTag for tag types 8,9,18 × lengths (all 0..4200, strided to 70000, boundaries to 2^24−1) × timestamps across the 24-bit boundary and up to 2^32−1, parsed by a strict FLV parser; FlvFileWriter→file→strict parser and FlvFileReader, incl. 2–3 recordings written to the same path one after the other (later ones shorter); MakeWsFrameHeader for every length 0..70000 and 2^16±1, 2^31, 2^32, 2^63−1 × flag combinations parsed by an RFC 6455 parser; real httpflv.SubSession (plain and WebSocket) over loopback TCP with tag sizes around 125/126/127 and 65535/65536. cell = API × length class × timestamp class.",
 		Assumptions: []string{"ref/flv.go and ref/ws.go are strict parsers written from the specifications", "loopback session writes stay far below the 1024-entry queue (no back-pressure)"},
 		MinCells: 12,
 		Run: func(c *fw.Ctx, i int) {
